@@ -60,6 +60,10 @@ pub struct Case {
     /// (cluster index, ring0) of the fake members
     pub members: Vec<(u8, bool)>,
     pub local_writes: u8,
+    /// before frame #at the node's cluster id is changed to CLUSTERS[to] the way the admin command does
+    /// (persisted, then `Agent::set_cluster_id`); connections opened earlier stay open
+    #[serde(default)]
+    pub switch: Option<(u8, u8)>,
 }
 
 pub fn case_strategy() -> impl Strategy<Value = Case> {
@@ -69,7 +73,8 @@ pub fn case_strategy() -> impl Strategy<Value = Case> {
         2 => proptest::collection::vec((0u8..2, 0u8..3, prop_oneof![3 => Just(Some(4u8)), 3 => (0u8..4).prop_map(Some), 1 => Just(None)]), 2..5).prop_map(|parts| Frame::UniStream { parts }),
         1 => declared().prop_map(|declared| Frame::Bi { declared }),
     ];
-    (0u8..4, proptest::collection::vec(frame, 3..12), proptest::collection::vec((0u8..4, any::<bool>()), 2..7), 1u8..4).prop_map(|(own, frames, members, local_writes)| Case { own, frames, members, local_writes })
+    (0u8..4, proptest::collection::vec(frame, 3..12), proptest::collection::vec((0u8..4, any::<bool>()), 2..7), 1u8..4, proptest::option::weighted(0.4, (0u8..12, 0u8..4)))
+        .prop_map(|(own, frames, members, local_writes, switch)| Case { own, frames, members, local_writes, switch })
 }
 
 fn cid(i: u8) -> ClusterId {
@@ -148,8 +153,34 @@ async fn run_case(case: &Case, info: &mut CaseInfo, root: std::path::PathBuf, ow
     let mut matching_unis = 0;
     let mut rejections = 0;
     let mut admitted_sessions = 0;
+    let mut own = own;
+    let mut switched = false;
     for (fi, f) in case.frames.iter().enumerate() {
         info.total_ops += 1;
+        if let Some((at, to)) = case.switch {
+            if !switched && fi == (at as usize) % case.frames.len() && cid(to) != own {
+                // let everything sent so far be processed under the old id first (marker of origin 2, version 2)
+                let (mk, mm) = &versions[&(2, 2)];
+                for m in mm {
+                    transport.send_uni(gossip, uni_frame(m, Some(own))?).await.map_err(|e| Fail::infra(format!("send_uni: {e}")))?;
+                }
+                let t0 = tokio::time::Instant::now();
+                while row_count(&b, &format!("SELECT count(*) FROM kv WHERE id = {mk}")).await? != 1 {
+                    ensure!(t0.elapsed() < Duration::from_secs(20), "infra", "marker before the cluster change not applied within 20 s");
+                    tokio::time::sleep(Duration::from_millis(20)).await;
+                }
+                tokio::time::sleep(Duration::from_millis(200)).await;
+                let new = cid(to);
+                {
+                    let conn = b.agent.pool().write_priority().await.map_err(|e| Fail::infra(e.to_string()))?;
+                    tokio::task::block_in_place(|| conn.execute("INSERT OR REPLACE INTO __corro_state (key, value) VALUES ('cluster_id', ?)", [new.0])).map_err(|e| Fail::infra(e.to_string()))?;
+                }
+                b.agent.set_cluster_id(new);
+                own = new;
+                switched = true;
+                info.class("cluster-id-changed-at-run-time");
+            }
+        }
         match f {
             Frame::Uni { origin, version, declared } => {
                 let key = (*origin as usize % 2, 1 + *version as u64 % 3);
@@ -237,8 +268,16 @@ async fn run_case(case: &Case, info: &mut CaseInfo, root: std::path::PathBuf, ow
     // marker: a same-cluster broadcast of the third origin sent after everything else; once it is visible the
     // node has had its chance to process what came before (plus a grace period: negative assertion only)
     let (mkey, mmsgs) = &versions[&(2, 1)];
+    // after a cluster change the marker travels over a connection of its own: whether the node re-reads its id
+    // for connections that were open before the change is the subject, not a precondition of the marker
+    let marker_transport = if switched {
+        let (rtt_tx2, _rtt_rx2) = tokio::sync::mpsc::channel(1024);
+        Transport::new(&gconf, rtt_tx2).await.map_err(|e| Fail::infra(format!("transport: {e}")))?
+    } else {
+        transport.clone()
+    };
     for m in mmsgs {
-        transport.send_uni(gossip, uni_frame(m, Some(own))?).await.map_err(|e| Fail::infra(format!("send_uni: {e}")))?;
+        marker_transport.send_uni(gossip, uni_frame(m, Some(own))?).await.map_err(|e| Fail::infra(format!("send_uni: {e}")))?;
     }
     let deadline = tokio::time::Instant::now() + Duration::from_secs(20);
     loop {
